@@ -9,7 +9,7 @@
 (*                                                                         *)
 (* Every clause yields [c |-> id, ok |-> holds, nv |-> antecedent held]    *)
 (***************************************************************************)
-EXTENDS Prov, FS, IO, SpecProvN, ProvNW
+EXTENDS Prov, FS, IO, SpecProvN, ProvXmlW
 
 Cl(id, nv, ok) == [c |-> id, ok |-> (~nv) \/ ok, nv |-> nv]
 
@@ -817,6 +817,11 @@ M_Json(msPost, step) ==
 (* the same arguments and markers in the same positions, same attribute sets                   *)
 M_ProvN(msPost, step) ==
   Cl("M_ProvN", IsRT(step, "provn") /\ step.exc = "none", AbsPN(step.ast) = EncPN(msPost, step.op.h))
+(* the PROV-XML text the library wrote is what the transcription of its writer (ProvXmlW.tla:  *)
+(* namespace maps, subtype element names, prov:ref, the xsi:type decision) produces            *)
+M_Xml(msPost, step) ==
+  Cl("M_Xml", IsRT(step, "xml") /\ step.stage \in {"read", "done"} /\ WfXML(step.ast),
+     SameAX(AbsX(step.ast), EncAX(msPost, step.op.h, step.op.opts \in {"force", "alt"})))
 M_Eq(r, step) == Cl("M_Eq", step.op.op = "CompareAll" /\ step.exc = "none", r.res = step.res.eq)
 
 =============================================================================
